@@ -144,3 +144,49 @@ package atree
 //@   ensures[C03 C17] err == nil ==> sto[hdrOf(r.root).slabID] == r.root && has(stored, r.root)
 //@   ensures[C17] err != nil ==> r == nil
 //@   modifies ghost.sto, ghost.stored, ghost.touched, alloc
+
+//@ # ---- map side
+//@ ghost escopy : fn(es ref) bool
+
+//@ iface elements.copyNonRefSimple() (r, err)
+//@   ensures escopy(recv) ==> err == nil
+//@   ensures err == nil ==> r != nil && fresh(r) && r != recv && (is(recv, *hkeyElements) ==> is(r, *hkeyElements)) && (is(recv, *singleElements) ==> is(r, *singleElements)) &&
+//@        elsSize(r) == old(elsSize(recv))
+//@   ensures err != nil ==> r == nil
+//@   modifies alloc
+
+//@ func (m *MapDataSlab) canCopyWithoutSlabID() (ok)  serves C17
+//@   requires m.elements != nil
+//@   ensures m.next != SlabIDUndefined ==> !ok
+//@   pure
+
+//@ # map leaf: the copy is a standalone root slab with the new id, a new element list, the source's first key, seed and count, a new
+//@ # extra-data record and the standalone-root size
+//@ func (m *MapDataSlab) copyWithNewSlabID(newID) (r, err)  serves C06 C17
+//@   requires m.elements != nil && (m.inlined ==> m.header.size >= inlinedMapDataSlabPrefixSize)
+//@   requires m.extraData != nil ==> m.extraData.TypeInfo != nil
+//@   ensures m.next != SlabIDUndefined ==> err != nil
+//@   ensures m.next == SlabIDUndefined && escopy(m.elements) ==> err == nil
+//@   ensures[C17] err == nil ==> r != nil && is(r, *MapDataSlab) && fresh(r) && as(r, *MapDataSlab).header.slabID == newID && as(r, *MapDataSlab).header.firstKey == m.header.firstKey &&
+//@        !as(r, *MapDataSlab).inlined && as(r, *MapDataSlab).next == SlabIDUndefined && as(r, *MapDataSlab).elements != nil && as(r, *MapDataSlab).elements != m.elements &&
+//@        fresh(as(r, *MapDataSlab).elements) && as(r, *MapDataSlab).anySize == m.anySize && as(r, *MapDataSlab).collisionGroup == m.collisionGroup
+//@   ensures[C17] err == nil && m.extraData != nil ==> as(r, *MapDataSlab).extraData != nil && as(r, *MapDataSlab).extraData != m.extraData && fresh(as(r, *MapDataSlab).extraData) &&
+//@        as(r, *MapDataSlab).extraData.Seed == m.extraData.Seed && as(r, *MapDataSlab).extraData.Count == m.extraData.Count
+//@   ensures[C06 C17] err == nil ==> as(r, *MapDataSlab).header.size == ite(m.inlined, m.header.size - inlinedMapDataSlabPrefixSize + mapRootDataSlabPrefixSize, m.header.size)
+//@   ensures err != nil ==> r == nil
+//@   modifies ghost.touched, alloc
+
+//@ iface DigesterBuilder.SetSeed(k0, k1)
+//@   modifies basicDigesterBuilder.k0, basicDigesterBuilder.k1
+
+//@ func (m *OrderedMap) CopyNonRefSimple(address, digestBuilder) (r, err)  serves C03 C17
+//@   requires m.root != nil && isMapSlab(m.root) && m.Storage != nil && digestBuilder != nil
+//@   assume is(m.root, *MapDataSlab) ==> as(m.root, *MapDataSlab).elements != nil && as(m.root, *MapDataSlab).extraData != nil && as(m.root, *MapDataSlab).extraData.TypeInfo != nil &&
+//@        (as(m.root, *MapDataSlab).inlined ==> as(m.root, *MapDataSlab).header.size >= inlinedMapDataSlabPrefixSize) because "tree invariant at the root"
+//@   ensures[C17] is(m.root, *MapMetaDataSlab) ==> err != nil && r == nil
+//@   ensures[C17] err == nil ==> r != nil && fresh(r) && r.Storage == m.Storage && r.root != m.root && is(r.root, *MapDataSlab) && fresh(r.root) && r.digesterBuilder == digestBuilder &&
+//@        mhdrOf(r.root).slabID.address == address && as(r.root, *MapDataSlab).elements != as(m.root, *MapDataSlab).elements &&
+//@        as(r.root, *MapDataSlab).extraData.Seed == as(m.root, *MapDataSlab).extraData.Seed
+//@   ensures[C03 C17] err == nil ==> sto[mhdrOf(r.root).slabID] == r.root && has(stored, r.root)
+//@   ensures[C17] err != nil ==> r == nil
+//@   modifies basicDigesterBuilder.k0, basicDigesterBuilder.k1, ghost.sto, ghost.stored, ghost.touched, alloc
